@@ -307,7 +307,10 @@ impl<'a> Interpreter<'a> {
                     stack.push_val(v.into());
                 }
                 ByteCode::MkDict(size) => {
-                    let mut map = HashMap::new();
+                    // The entries come off the stack last-to-first. They are inserted in source
+                    // order so that for a repeated key the last entry wins, as it does when the
+                    // literal is folded at compile time.
+                    let mut entries = Vec::new();
 
                     for _ in 0..*size {
                         let key = if let CelValue::String(key) = stack.pop_val()? {
@@ -316,7 +319,12 @@ impl<'a> Interpreter<'a> {
                             return Err(CelError::value("Only strings can be used as Object keys"));
                         };
 
-                        map.insert(key, stack.pop_val()?);
+                        entries.push((key, stack.pop_val()?));
+                    }
+
+                    let mut map = HashMap::new();
+                    for (key, value) in entries.into_iter().rev() {
+                        map.insert(key, value);
                     }
 
                     stack.push_val(map.into());
